@@ -53,6 +53,19 @@ def ftp_odd_names_scenario(name, N=1):
     return scn
 
 
+def ftp_big_directory_scenario(name, n=150, total_line=False):
+    """One directory with n files (more than the parser's sample of 100 lines); total_line: the listing begins with the
+    "total N" line of `ls -l`, as many servers send it."""
+    names = ['f%03d.txt' % i for i in range(1, n + 1)]
+    urls = [U(1, host='f.test', path='/', links=list(range(2, 2 + n)))]
+    urls += [U(i + 2, host='f.test', path='/' + nm) for i, nm in enumerate(names)]
+    scn = scenario(name, urls, dict(tries=1), N=1)
+    f = '-rw-r--r-- 1 ftp ftp 3 Jan 01  2020 %s\r\n'
+    scn['ftp'] = dict(files={nm: 'xyz' for nm in names}, dirs=[],
+                      listings={'/': ('total %d\r\n' % (4 * n) if total_line else '') + ''.join(f % nm for nm in names)})
+    return scn
+
+
 def hosts_of(scn):
     return sorted(set(u['host'] for u in scn['urls']))
 
@@ -216,6 +229,8 @@ def c01_catalogue(quick):
     # recursive FTP: the entries of a listing are the links of a directory, whatever characters their names have
     out.append(ftp_scenario('ftp-tree-N1'))
     out.append(ftp_odd_names_scenario('ftp-odd-names-N1'))
+    out.append(ftp_big_directory_scenario('ftp-directory-of-150-files'))
+    out.append(ftp_big_directory_scenario('ftp-listing-with-total-line', n=5, total_line=True))
     # foreign host, redirect to the foreign host (waived), redirect to a rejected URL, link to rejected
     scope = [U(1, links=[2, 3, 4, 5, 7]), U(2, host='b.test'), U(3, kind='redirect', rto=6),
              U(4, kind='redirect', rto=5), U(5, rejected=1), U(6, host='b.test', links=[2]), U(7, links=[1])]
